@@ -100,7 +100,13 @@ def key_paths(rnd, ref, alternatives=2):
     by 1-2 nibbles, a divergence at every position."""
     paths = {()}
     for k, _ in ref.items:
-        for i in range(len(k) + 1):
+        positions = range(len(k) + 1)
+        if len(k) > 80:
+            # very long keys: the ends and a sample of the middle (every position would be
+            # quadratic work for nothing new)
+            positions = sorted(set(list(range(6)) + list(range(len(k) - 5, len(k) + 1)) + [255, 256, 257, 258]
+                                   + rnd.sample(range(len(k) + 1), 30)) & set(range(len(k) + 1)))
+        for i in positions:
             paths.add(k[:i])
             alts = list(range(16)) if alternatives >= 15 else rnd.sample(range(16), alternatives)
             for a in alts:
